@@ -59,6 +59,13 @@ func (f *frame) instr(in ssa.Instruction) {
 		f.makeSlice(x)
 	case *ssa.MakeMap:
 		f.allocRef(x)
+		// a new map has no entries
+		if mt, ok := x.Type().Underlying().(*types.Map); ok {
+			_, _, pk, ps := f.enc.mapHeapKeys(mt)
+			cp := f.enc.heapGet(f.curHeap, pk, ps)
+			empty := fmt.Sprintf("((as const (Array %s Bool)) false)", f.enc.R.sortOf(mt.Key()))
+			f.enc.heapSet(f.curHeap, pk, ps, fmt.Sprintf("(store %s %s %s)", cp, f.vals[x].term, empty))
+		}
 	case *ssa.MakeChan:
 		f.allocRef(x)
 	case *ssa.MakeClosure:
@@ -177,9 +184,9 @@ func (f *frame) alloc(x *ssa.Alloc) {
 	e := f.enc
 	t := x.Type().(*types.Pointer).Elem()
 	ref := f.newRef()
-	if !allocEscapes(x, 0) {
-		f.locals = append(f.locals, localAlloc{ref: ref, t: t})
-	}
+	// every allocation is private until its reference escapes (tracked as the encoding
+	// proceeds): callees and havocs cannot touch it before that
+	f.locals = append(f.locals, localAlloc{ref: ref, t: t})
 	switch u := t.Underlying().(type) {
 	case *types.Struct:
 		f.vals[x] = SV{t: x.Type(), term: ref}
@@ -274,9 +281,8 @@ func (f *frame) store(x *ssa.Store) {
 			f.enc.escaped = true
 		}
 	}
-	if !f.isLocalBase(l) {
-		f.enc.escapeTerm(val)
-	}
+	// a reference stored anywhere may be read back by other code later: conservative
+	f.enc.escapeTerm(val)
 	if _, fresh := addrRoot(x.Addr).(*ssa.Alloc); !fresh && !f.isLocalBase(l) {
 		f.wrote("store " + f.enc.srcText(f.fn, x.Pos(), "star"))
 	}
@@ -289,7 +295,7 @@ func (f *frame) isLocalBase(l *Loc) bool {
 	}
 	for fr := f; fr != nil; fr = fr.parent {
 		for _, la := range fr.locals {
-			if la.ref == l.base {
+			if la.ref == l.base && !f.enc.escapedSeen[la.ref] {
 				return true
 			}
 		}
@@ -865,6 +871,7 @@ func (f *frame) makeSlice(x *ssa.MakeSlice) {
 	f.oblige("safety.makeslice", text, cond, text, x.Pos())
 	f.assume(cond)
 	ref := f.newRef()
+	f.locals = append(f.locals, localAlloc{ref: ref, t: types.NewArray(x.Type().Underlying().(*types.Slice).Elem(), 0)})
 	f.defineVal(x, fmt.Sprintf("(mk-slice %s #x0000000000000000 %s %s)", ref, ln, cp))
 	// zeroed contents
 	e := f.enc
@@ -942,6 +949,21 @@ func (f *frame) next(x *ssa.Next) {
 		parts = append(parts, SV{t: t, term: n})
 	}
 	f.vals[x] = SV{t: x.Type(), tuple: parts}
+	// range over a map: a produced entry is present in the map when it is produced and the
+	// value is the one stored at that moment (Go spec, "For statements with range clause")
+	if rg, ok := x.Iter.(*ssa.Range); ok && !x.IsString {
+		if mt, ok := rg.X.Type().Underlying().(*types.Map); ok && parts[1].term != "0" {
+			m := f.scalar(rg.X)
+			vk, vs, pk, ps := e.mapHeapKeys(mt)
+			present := fmt.Sprintf("(select (select %s %s) %s)", e.heapGet(f.curHeap, pk, ps), m, parts[1].term)
+			fact := and(not(fmt.Sprintf("(= %s 0)", m)), present)
+			if parts[2].term != "0" {
+				val := fmt.Sprintf("(select (select %s %s) %s)", e.heapGet(f.curHeap, vk, vs), m, parts[1].term)
+				fact = and(fact, fmt.Sprintf("(= %s %s)", parts[2].term, val))
+			}
+			f.assume(implies(parts[0].term, fact))
+		}
+	}
 }
 
 func (f *frame) selectInstr(x *ssa.Select) {
